@@ -9,7 +9,7 @@ from mc.run import Stats
 
 ASSUME = [
     "windows start 2025-01-06 (+00:00 or +08:13), spans 180 min / 1 d 37 min / 2 d; resolutions listed in coverage; plus windows across the daylight-saving switch of the PROCESS time zone (TZ=Europe/Berlin 2025-03-29, TZ=America/New_York 2025-11-01): the environment must not matter",
-    "instants are whole seconds; a 90-year window is probed at ~2000 indices and around 2^31 seconds (the far grid)",
+    "every whole-minute resolution 1..120 min is covered by the slot-start sweep (3-day window: index(time(i)) = i and +-1 s); instants are whole seconds; a 90-year window is probed at ~2000 indices and around 2^31 seconds (the far grid)",
     "for instants outside [start, end] only 'reject or clamp' is demanded (truncation toward zero in (start-L, start) is tolerated)",
     "collectIntervals reference: maximal runs over the table without its final sentinel slot, >= minimum, clipped to [s,e), empty dropped",
 ]
@@ -29,6 +29,7 @@ def run(ctx):
         sbc = grids.sb_configs(ctx.tier)
         res = pool.map("mc.grids:sb_grid", sbc, timeout=300, chunk=1)
         res += pool.map("mc.grids:ci_grid", ci_configs(ctx.tier), timeout=900, chunk=1)
+        res += pool.map("mc.grids:rt_grid", [(a, min(a + 7, 120)) for a in range(1, 121, 8)], timeout=900, chunk=1)
         res += pool.map("mc.grids:far_grid", [60, 15] if ctx.tier == "quick" else [60, 30, 15, 7], timeout=900, chunk=1)
         from mc.pool import die_on_harness_errors
         die_on_harness_errors(res)
@@ -72,6 +73,8 @@ def replay(path):
     cfg = p["cfg"]
     if isinstance(cfg, (int, float)):
         r = grids.far_grid(cfg)
+    elif len(cfg) == 2:
+        r = grids.rt_grid(tuple(cfg))
     elif len(cfg) in (3, 4) and isinstance(cfg[1], (list, tuple)):
         r = grids.sb_grid((cfg[0], tuple(cfg[1]), cfg[2]) + ((tuple(cfg[3]),) if len(cfg) == 4 else ()))
     else:
